@@ -27,12 +27,25 @@ def _native_run(ROOT, BUILD, ENV, u, unit, tests, run_group, tag, timeout):
     `#[cfg(verif_replay)] include!("/verif/build/<unit>/replay_tests.rs");`"""
     crate = os.path.join(ROOT, u["crate"])
     names = []
+    # every contract module of the crate include!s its own replay file under cfg(verif_replay):
+    # make sure the files of sibling units (same crate) exist
+    import sys
+    sys.path.insert(0, os.path.join(ROOT, "tools"))
+    import registry
+    for other, ou in registry.UNITS.items():
+        if ou.get("crate") == u.get("crate") and other != unit:
+            op = replay_tests_path(BUILD, other)
+            os.makedirs(os.path.dirname(op), exist_ok=True)
+            if not os.path.exists(op):
+                open(op, "w").write("// no replay tests for this unit in this run\n")
     with open(replay_tests_path(BUILD, unit), "w") as f:
         f.write("// written by tools/replay.py: Kani concrete playback tests\n")
         for t in tests:
             m = re.search(r"fn (kani_concrete_playback_\w+)", t)
             if m and m.group(1) not in names:
                 names.append(m.group(1))
+                # contract modules may shadow `Vec`/`vec!` with the vcoll stand-ins: name the std ones
+                t = t.replace("Vec<Vec<u8>>", "std::vec::Vec<std::vec::Vec<u8>>").replace("vec![", "std::vec![")
                 f.write(t + "\n")
     env2 = dict(ENV)
     env2["CARGO_TARGET_DIR"] = os.path.join(BUILD, f"target-replay-{unit}")
